@@ -74,13 +74,16 @@ Proof.
   split; [exact H|]. split; [exact (C08_reachable [] ops0 s_ex H) | vm_compute; reflexivity].
 Qed.
 
-(* ---- the unchanged code violates the property on paths that are NOT coupled steps ---- *)
-(* (1) a record added directly to _grist_Tables_column (useractions has no override for BulkAddRecord on that
-       table): the metadata gain a column the engine schema does not have *)
+(* ---- steps that are NOT coupled break the invariant in the model; the engine must therefore reject them ----
+   A record action applied on its own to _grist_Tables/_grist_Tables_column has no schema doc action derived from it.
+   Since commit b79769b such a doc action sets Engine._schema_updated, so assert_schema_consistent runs at the end of
+   the user action, raises, and the bundle is rolled back.  The check's engine-side oracle: an uncoupled direct
+   metadata edit either keeps schema == metadata or the bundle fails and leaves no trace.
+   (1) a record added directly to _grist_Tables_column: the metadata would gain a column the schema does not have *)
 Definition rZ : crec := {| c_id := 9; c_parent := 1; c_pos := 9; c_colId := [90]; c_type := [84; 101; 120; 116];
                            c_isf := false; c_formula := []; c_rev := 0 |}.
 
-Theorem C08_refuted_direct_column_record :
+Theorem C08_uncoupled_column_record_breaks_inv :
   exists s s', Inv [] s /\ step (CRaw (EM (MAddCols [rZ]))) s = Ok s' /\ ~ Inv [] s'.
 Proof.
   exists s_ex. eexists. split; [exact (proj1 (proj2 C08_nonvacuous))|]. split; [vm_compute; reflexivity|].
@@ -88,7 +91,7 @@ Proof.
   specialize (He [85]). vm_compute in He. specialize (He [90]). vm_compute in He. discriminate He.
 Qed.
 
-(* (2) a parentId update: _updateColumnRecords derives no schema action from it *)
+(* (2) a parentId update: _updateColumnRecords derives no schema action from it (cop_pre excludes it) *)
 Definition ops1 : list cop := ops0 ++ [CAddTable {| t_id := 2; t_tableId := [86] |}
                                         [{| c_id := 3; c_parent := 2; c_pos := 1; c_colId := [65]; c_type := [73; 110; 116];
                                             c_isf := false; c_formula := []; c_rev := 0 |};
@@ -96,7 +99,7 @@ Definition ops1 : list cop := ops0 ++ [CAddTable {| t_id := 2; t_tableId := [86]
                                             c_isf := false; c_formula := []; c_rev := 0 |}]].
 Definition s_ex1 : state := match reach ops1 (empty_doc []) with Ok s => s | Err _ => empty_doc [] end.
 
-Theorem C08_refuted_parent_update :
+Theorem C08_uncoupled_parent_update_breaks_inv :
   exists s s', Inv [] s /\
     step (CUpdateColumns [(4, {| u_parent := Some 1; u_pos := None; u_colId := None; u_type := None; u_isf := None;
                                  u_formula := None; u_rev := None |})]) s = Ok s' /\ ~ Inv [] s'.
